@@ -25,6 +25,14 @@ CHECKS = {
         note="Bound: <=3 template lines (all pairs of 50 templates and all triples of a 13-template core in quick; triples of a 28-template core in thorough), 80 steps per path, literal loop bounds with >=1 trip (zero-trip FOR loops, ON selectors out of range are reported as such, not compared). Trusted: the two reference front ends and the machine (vf/tv), z3.",
         design="DESIGN.md §5 C02",
     ),
+    "C03": dict(
+        engine="tv+symproxy",
+        category=TV,
+        technique="translation validation with SMT (both symbolic machines over real convert() output, z3 decides event/store equality; BASIC09 storage starts undefined when pre-initialisation is requested) + real DIM emission executed on a symbolic bound",
+        text="PRINT lists (every arrangement of <=2/3 items from six item kinds with ; , juxtaposition, leading and trailing separators, with and without @), INPUT / LINE INPUT forms, DATA/READ/RESTORE arrangements over eight item kinds (quoted, unquoted, int, real, signed, exponent, hex, empty) spread over one or two DATA lines, array store/load with symbolic subscripts in 1-3 dimensions, nested string functions: z3 decides that both machines produce the same events (items, separators, prompts, targets) and stores. The declared extent and the fill-loop bound of DIM are decided for EVERY bound 0..32766 (decimal and hex) by running the real BasicDimStatement on a z3 integer. With initialize_vars=True the BASIC09 machine starts from undefined storage and every read of a variable/element nothing initialised is reported.",
+        note="ecb_read_filter / number formatter follow their contracts (C20 checks the former against the library text). Outside: numeric DATA read into string variables, non-integer subscripts, out-of-range function arguments, float formatting. Programs that crash the tool are counted and left to C15.",
+        design="DESIGN.md §5 C03",
+    ),
     "C04": dict(
         engine="tv+symproxy",
         category=TV,
